@@ -101,6 +101,11 @@ TWINS = [
     (["--set=@w=(concat :p .s)", "--set=p=\"<\"", "--select=(concat @w (set \"p\" \">\" @w)) =x"], ["--select=(concat (concat \"<\" .s) (concat \">\" .s)) =x"]),
     (["--set=@m=(+ :x .n)", "--select=(set \"x\" 10 @m) =x", "--select=(set \"x\" 10 (map .l (+ . @m))) =y"],
      ["--select=(+ 10 .n) =x", "--select=(map .l (+ . (+ 10 .n))) =y"]),        # a macro is expanded where it is used: `.` is the element there
+    # a macro sees the enclosing inputs and the bindings of the place where it is used, every time it is used
+    (["--set=@up=(+ . ^.n)", "--select=(map .l @up) =x", "--select=(map [1, 1, 2] @up) =y"], ["--select=(map .l (+ . ^.n)) =x", "--select=(map [1, 1, 2] (+ . ^.n)) =y"]),
+    (["--set=@pp=(concat ^.s ^^.t)", "--select=(map .ls (| . @pp)) =x"], ["--select=(map .ls (| . (concat ^.s ^^.t))) =x"]),
+    (["--set=@sel=(+ /a/ 1)", "--select=.n =a", "--select=@sel =b", "--filter=(number? .n)"], ["--select=.n =a", "--select=(+ /a/ 1) =b", "--filter=(number? .n)"]),
+    (["--set=@ix=&index", "--select=@ix =i", "--select=(map [0] @ix) =j"], ["--select=&index =i", "--select=(map [0] &index) =j"]),
     (["--set=@m=(size .l)", "--split-by=.l", "--select=(set \"e\" . (+ :e ^.n)) =x", "--filter=(define \"q\" 1 (>= (+ @q .) 0))"],
      ["--split-by=.l", "--select=(+ . ^.n) =x", "--filter=(>= (+ 1 .) 0)"]),
 ]
